@@ -70,7 +70,7 @@ def _fix_programs(tier: str):
     """explicit-state searches run to a fixpoint (hv.xstate): call / completion / cancellation /
     clock histories of EVERY length with at most K callers active at a time"""
     if tier == "quick":
-        cfgs = [(2, 1, None, 2, "function"), (2, 2, None, 2, "function"), (3, 1, None, 2, "function"), (2, 1, 2, 1, "function"), (2, 1, None, 2, "method"), (2, 1, None, 2, "function-exc")]
+        cfgs = [(2, 1, None, 2, "function"), (2, 2, None, 2, "function"), (3, 1, None, 2, "function"), (2, 1, 2, 1, "function"), (2, 1, 2, 2, "function"), (2, 1, None, 2, "method"), (2, 1, None, 2, "function-exc")]
     else:
         cfgs = [(2, 1, None, 2, "function"), (2, 2, None, 2, "function"), (3, 1, None, 2, "function"), (3, 2, None, 2, "function"), (2, 1, 2, 1, "function"), (2, 1, 2, 2, "function"), (2, 2, 2, 2, "function"), (3, 1, 2, 1, "function"), (2, 1, None, 2, "method"), (2, 2, 2, 2, "method"), (2, 1, None, 2, "function-exc"), (4, 1, None, 1, "function")]
     for active, limit, expiration, keys, variant in cfgs:
